@@ -11,6 +11,12 @@ theorem render_ok_of_isSome {α : Type} (x : Except RErr α) (h : x.toOption.isS
   | error e => simp [Except.toOption] at h
   | ok r => exact ⟨r, rfl⟩
 
+/-- the exception of a failed computation (for kernel-checked statements about concrete renders:
+`Wd` has no decidable equality) -/
+def errOf {α : Type} : Except RErr α → Option RErr
+  | .error e => some e
+  | .ok _ => none
+
 /-- a label that renders to two or more rows refutes `LayoutOK` -/
 theorem not_layoutOK_of_label_rows {cc : CharClass} {cm : Bool} {columns : Nat} {cw : Option Int}
     {spacing : Nat} {k : KeyPat} {items : List Wd} {w : Int} {r : Wd} {items' : List Wd}
